@@ -109,6 +109,8 @@ type Expression struct {
 type optimisedExpression struct {
 	// Used to optimise constant expressions.
 	Constant pyObject
+	// True if Constant is a precalculated list literal; each evaluation must then yield a list of its own.
+	ListLiteral bool
 	// Similarly applied to optimise simple lookups of local variables.
 	Local string
 	// And similarly applied to optimise lookups into configuration.
